@@ -140,6 +140,19 @@ struct KCase
   }
   bool zdef(int i, int v) const { return !isNA(z[(size_t)(i * nvar + v)]); }
   bool active(int i) const { return sel.empty() || sel[(size_t)i] != 0; }
+  // external drifts all defined at datum i (a datum without them cannot enter the system: KrigingSystem::_flagDefine)
+  bool fdef(int i) const
+  {
+    for (int f = 0; f < nfex; f++)
+      if (isNA(fdat[(size_t)(i * nfex + f)])) return false;
+    return true;
+  }
+  bool ftdef(int k) const
+  {
+    for (int f = 0; f < nfex; f++)
+      if (isNA(ftar[(size_t)(k * nfex + f)])) return false;
+    return true;
+  }
   bool anyDef(int i) const
   {
     for (int v = 0; v < nvar; v++)
@@ -150,8 +163,11 @@ struct KCase
   {
     for (int i = 0; i < n(); i++)
       if (active(i) && anyDef(i))
+      {
+        if (!fdef(i)) return true;
         for (int v = 0; v < nvar; v++)
           if (!zdef(i, v)) return true;
+      }
     return false;
   }
   bool stationary() const
@@ -209,6 +225,8 @@ struct GenOpt
   int sectorPct = 50;    // moving neighbourhood: probability of angular sectors (ndim >= 2)
   int nMax = 40;
   int farPct = 10;       // targets far outside the data hull
+  int naFdataPct = 20;   // external drift family: probability of undefined external-drift values at some data
+  int naFtargPct = 0;    // external drift family: probability (per target) of an undefined external drift at the target
 };
 
 inline int monoCount(int ndim, int order)
@@ -349,6 +367,9 @@ inline KCase genCase(const GenOpt& o)
   {
     c.fdat.resize((size_t)(n * c.nfex));
     for (auto& v : c.fdat) v = G::r(-5, 5, 16);
+    if (n > nbfl + 2 && G::pct(o.naFdataPct))
+      for (int i = 1; i < n; i++)
+        if (G::pct(15)) c.fdat[(size_t)(i * c.nfex + G::i(0, c.nfex - 1))] = NA;
   }
   if (c.order < 0)
     for (int v = 0; v < c.nvar; v++) c.means.push_back(G::pct(30) ? 0. : zoff + G::r(-20, 20, 4));
@@ -460,9 +481,11 @@ inline KCase genCase(const GenOpt& o)
         {
           bool same = true;
           for (int d = 0; d < c.ndim; d++) same = same && c.targ.at(k, d) == c.data.at(i, d);
-          if (same)
+          if (same && c.fdef(i))
             for (int f = 0; f < c.nfex; f++) c.ftar[(size_t)(k * c.nfex + f)] = c.fdat[(size_t)(i * c.nfex + f)];
         }
+    for (int k = 0; k < c.ntarg(); k++)
+      if (G::pct(o.naFtargPct)) c.ftar[(size_t)(k * c.nfex + G::i(0, c.nfex - 1))] = NA;
   }
   return c;
 }
@@ -783,7 +806,7 @@ public:
     S.unk.clear();
     for (int v = 0; v < c.nvar; v++)
       for (int i : nb)
-        if (c.zdef(i, v)) S.unk.push_back({i, v});
+        if (c.zdef(i, v) && c.fdef(i)) S.unk.push_back({i, v});
     S.nu = (int)S.unk.size();
     S.nbfl = nbfl;
     S.nfeq = (c.order >= 0) ? c.nvar * nbfl : 0;
